@@ -75,26 +75,29 @@ Definition dt_add_timedelta (k : tzk) (W : Z) (f : bool) (op : operand) : result
   | OpTd N => dt_add_fsec k W f 0 0 (total_seconds N)
   end.
 
-(* DateTime._subtract_timedelta: Duration (and Interval, a subclass): subtract(years=, months=, seconds=delta._total) *)
+(* dt.subtract(years=d.years, months=d.months, weeks=d.weeks, days=d.remaining_days, hours=d.hours, minutes=d.minutes,
+               seconds=d.remaining_seconds, microseconds=d.microseconds) *)
+Definition dt_sub_components (k : tzk) (W : Z) (f : bool) (d : dur) : result (Z * bool) :=
+  dt_subtract k W f (d_years d) (d_months d) (d_weeks d) (d_rdays d) (dur_hours d) (dur_minutes d) (dur_remaining_seconds d) (d_micro d).
+
+(* DateTime._subtract_timedelta.  Duration (and Interval, a subclass): subtract() of the accessor values years, months, weeks,
+   remaining_days, hours, minutes, remaining_seconds, microseconds (all integers: the same units as _add_timedelta_ on an
+   Interval and as Date._subtract_timedelta; `_total` is not used).  A plain timedelta: subtract(seconds=total_seconds()). *)
 Definition dt_sub_timedelta (k : tzk) (W : Z) (f : bool) (op : operand) : result (Z * bool) :=
   match op with
-  | OpIv y mo _ _ _ _ _ _ total => dt_add_fsec k W f (- y) (- mo) (fopp total)
-  | OpDur d => dt_add_fsec k W f (- d_years d) (- d_months d) (fopp (d_total d))
+  | OpIv y mo wk rd h mi rs us _ => dt_subtract k W f y mo wk rd h mi rs us
+  | OpDur d => dt_sub_components k W f d
   | OpTd N => dt_add_fsec k W f 0 0 (fopp (total_seconds N))
   end.
 
-(* Duration.__neg__ *)
+(* Duration.__neg__: self.__class__(years=-_years, months=-_months, weeks=-_weeks, days=-_remaining_days, seconds=-_seconds,
+   microseconds=-_microseconds) — a NEW Duration, whose _signature is these keyword values (hours = minutes = 0) *)
 Definition dur_neg (d : dur) : result dur :=
   duration_new (- d_rdays d) (- d_seconds d) (- d_micro d) 0 0 0 (- d_weeks d) (- d_years d) (- d_months d).
 
 (* dt + (-d) *)
 Definition dt_plus_neg (k : tzk) (W : Z) (f : bool) (d : dur) : result (Z * bool) :=
   bind (dur_neg d) (fun nd => dt_add_timedelta k W f (OpDur nd)).
-
-(* dt.subtract(years=d.years, months=d.months, weeks=d.weeks, days=d.remaining_days, hours=d.hours, minutes=d.minutes,
-               seconds=d.remaining_seconds, microseconds=d.microseconds) *)
-Definition dt_sub_components (k : tzk) (W : Z) (f : bool) (d : dur) : result (Z * bool) :=
-  dt_subtract k W f (d_years d) (d_months d) (d_weeks d) (d_rdays d) (dur_hours d) (dur_minutes d) (dur_remaining_seconds d) (d_micro d).
 
 (* ---------------------------------------------------------------- Date *)
 (* Date.add: add_duration on date(y, m, d), then self.__class__(dt.year, dt.month, dt.day) *)
